@@ -158,8 +158,8 @@ func OracleC05(c *Case, obs *RunObs) *Failure {
 	// a resumed call that carries a state modifier hands it the restored state of every graph the preceding
 	// interrupt reported a state for, each exactly once and under the path of that graph
 	for j, s := range obs.Segs {
-		if j == 0 || !s.Call.Mod || !s.WithID || s.Class == "panic" || s.Class == "hang" {
-			continue
+		if j == 0 || !s.Call.Mod || !s.WithID || (s.Class != "done" && s.Class != "interrupt") {
+			continue // a failing call may return while restored tasks are still starting (eager mode)
 		}
 		prev := obs.Segs[j-1]
 		if prev.Class != "interrupt" || !prev.Stored || prev.Sets != 1 {
